@@ -45,6 +45,16 @@ def gen_flowir_package(rr, idx):
            'environments': {'default': {'env1': {'DEFAULTS': 'PATH', 'FOO': 'bar', 'ZED': '%(g1)s'},
                                         'env2': {'BAZ': 'qux'}}},
            'components': []}
+    # chained environment variables (2-3 levels, optionally self-referencing): their expansion must not depend on the
+    # order in which the keys are listed
+    chain = {'BASE_DIR': '/opt/base', 'APP_DIR': '${BASE_DIR}/app', 'BIN_DIR': '${APP_DIR}/bin'}
+    if rr.random() < 0.5:
+        chain['LIB_DIR'] = '$APP_DIR/lib:${BIN_DIR}'
+    if rr.random() < 0.3:
+        chain['APP_DIR'] = '${BASE_DIR}/app:${APP_DIR}'
+    items = list(chain.items())
+    rr.shuffle(items)
+    doc['environments']['default']['env3'] = dict(items)
     for v in uvars:
         doc['variables']['default']['global'][v] = 'default-%s' % v
     if 'px' in platforms:
@@ -59,8 +69,8 @@ def gen_flowir_package(rr, idx):
         c = {'name': names[i], 'stage': stage,
              'command': {'executable': 'echo',
                          'arguments': ' '.join(['UV[%s=%%(%s)s]' % (u, u) for u in rr.sample(uvars, rr.randint(1, len(uvars)))]
-                                               + ['%(g2)s'] + (['UV[s0v=%(s0v)s]'] if stage == 0 else [])),
-                         'environment': rr.choice(['env1', 'env2', 'none'])},
+                                               + ['%(g2)s', 'UV[g1=%(g1)s]'] + (['UV[s0v=%(s0v)s]'] if stage == 0 else [])),
+                         'environment': rr.choice(['env1', 'env2', 'env3', 'env3', 'none'])},
              'variables': {'cv': 'c%d' % i}}
         if c['command']['environment'] == 'none':
             del c['command']['environment']
@@ -93,6 +103,9 @@ def gen_flowir_package(rr, idx):
                 content['global'][v] = 'f%d-%s' % (f, v)
         if rr.random() < 0.3:
             content['stages'] = {0: {'s0v': 'f%d-s0' % f}}
+        if rr.random() < 0.35:
+            # a user variable that collides with one defined in the (selected) platform's global scope
+            content['global']['g1'] = 'f%d-g1' % f
         if not content['global']:
             content['global'][uvars[0]] = 'f%d-%s' % (f, uvars[0])
         vfiles.append(content)
